@@ -243,7 +243,7 @@ def run_spec(K, atoms, ident0, conn, pos, level, mult, stereo=True, remove_dup=T
         mem[k] = {}
         canon[k] = {}
         for a in atoms:
-            nb = [b for b in atoms if b != a and not gt(d2[(a, b)], rad2)]
+            nb = [b for b in atoms if b != a and k * mult >= 0 and not gt(d2[(a, b)], rad2)]
             if not include_disconnected:
                 nb = [b for b in nb if b in bonded.get(a, ())]
             tl = sorted([(conn[(a, b)], ident[k - 1][b], b) for b in nb], key=lambda t: t[:2])
